@@ -1855,6 +1855,14 @@ class SpaceUpdater(SharedSpaceOperations):
                     Instruction(self._update_derived_space, (v,))
                 )
 
+        # Refuse before anything is changed when a remaining space
+        # would be left without a linearisation, as remove_bases does
+        trial = self._graph.copy()
+        trial.remove_nodes_from(nodes_removed)
+        for _, v in nx.edge_bfs(self.manager._graph, nodes_removed):
+            if v not in nodes_removed:
+                trial.get_mro(v)
+
         # Release the values bound to the references defined in the
         # deleted spaces, so that their IOSpecs do not outlive them.
         for child in nodes_removed:
